@@ -217,7 +217,33 @@ def run(ctx):
                         if f.name in ("next_element_seed", "next_value_seed"):
                             ctx.check(r.endswith("reference_location") and d.endswith("defined_location"), "PAIR", "C18:PAIR:%s:recorded-pair" % f.name, "the recorded pair is (use-site, definition-site) of this element",
                                       "the recorded locations are (%s, %s)" % (r, d), config, ctx.where(f, b))
-            ctx.floor("PAIR.current", np_, 3, config)
+            ctx.floor("PAIR.current", np_, 2, config)
+            # the same obligation stated from the *push*: wherever the recorder's current path is extended (a value built with
+            # `join`), every way out of the function passes an assignment that puts a saved value back — also when the saving
+            # local has been optimised away together with the restore
+            npush = 0
+            for f in sorted(fx.fns.values(), key=lambda f: f.npath):
+                if not f.file.endswith("src/de.rs"):
+                    continue
+                pushes, restores = [], []
+                for b, i, s_ in f.stmts():
+                    if s_["k"] == "assign" and s_["p"]["pr"] and render(f.sym_place(s_["p"])).endswith(".current"):
+                        with f.deep():
+                            v = f.sym_rvalue(s_["rv"])
+                        if sym_contains(v, lambda x: x[0] == "call" and last_seg(x[1]) == "join"):
+                            pushes.append((b, i))
+                        else:
+                            restores.append(b)
+                for b, i in pushes:
+                    npush += 1
+                    ctx.saw(f)
+                    later_same_block = [rb for rb in restores if rb == b and any(s2["k"] == "assign" and s2["p"]["pr"] and render(f.sym_place(s2["p"])).endswith(".current") for k2, s2 in enumerate(f.blocks[b]["stmts"]) if k2 > i)]
+                    nxt = f.blocks[b]["term"].get("t") if f.blocks[b]["term"]["k"] in ("call", "goto", "drop", "assert") else None
+                    starts = [x for x in f.succ[b]]
+                    okp = bool(restores) and (bool(later_same_block) or must_pass(f, starts, restores))
+                    ctx.check(okp, "PAIR", "C18:PAIR:%s:pushed-path-restored#%d" % (f.name, npush), "the path segment pushed on `recorder.current` is put back on every way out",
+                              "%s extends `recorder.current` and can return without putting the previous path back: every later field of the same mapping is recorded under a wrong prefix (`inner.hostName.port`), so its validation issue has no position" % f.npath, config, ctx.where(f, b))
+            ctx.floor("PAIR.current-pushes", npush, 3, config)
             # every insert into the recorder's map stores the pair as captured: the value is a Locations literal of the two
             # captured locations, or a constructor that returns its two arguments unchanged on every path (a constructor that
             # "normalises" — e.g. collapses the pair when some derived quantity is equal — loses the definition site)
